@@ -234,7 +234,9 @@ Proof.
     assert (HR1 : Rel pS p1).
     { split; [|exact Hm1]. destruct Ho1 as (G1 & G2 & G3 & G4 & G5). unfold obs_eq. repeat split; congruence. }
     rewrite <- H5. destruct (search fs (dirs pS) (n, this, false)) as [f|].
-    + destruct (run_file_S fs fuel f pS) as [p2|e] eqn:E2; [|discriminate].
+    + replace (once p1) with (once pS) by (destruct HR1 as [(G1 & G2 & G3 & G4 & G5) _]; congruence).
+      destruct (mem_path f (once pS)); [apply IH; exact HR1|].
+      destruct (run_file_S fs fuel f pS) as [p2|e] eqn:E2; [|discriminate].
       destruct (run_file_sim fuel f pS p1 p2 HR1 E2) as (q2 & -> & HR2). apply IH; exact HR2.
     + apply IH; exact HR1.
 Qed.
